@@ -187,7 +187,7 @@ def run_case(case):
 
         for op, L, k, ok, i, fl in case["ops"]:
             ev = {"op": op, "L": L, "k": k, "ok": bool(ok), "i": i, "fl": fl, "status": "ok", "present": False, "legacy": False,
-                  "ents": [], "obs": [], "lse": 0, "shift": 0}
+                  "ents": [], "obs": [], "lse": 0, "shift": 0, "tok": 0}
             if op == "Load" and content(k) is None:
                 continue
             if op == "Dense":
@@ -259,3 +259,121 @@ def layouts(max_lines, old=False, full_only=False, ids=IDS):
             for combo in itertools.product(*[line_variants(i, full_only=full_only, old=old) for i in seq]):
                 out.append([dict(l) for l in combo])
     return out
+
+
+# ------------------------------------------------------------------------------------------ composite: PAGE XML + logits -> outputs
+COMPOSITE_LETTERS = ["a", "b", "c", " "]
+
+
+def composite_universe(seed, tags=(1, 2, 3)):
+    """CTC-like matrices (frames x (letters + blank), 1/8 units, pruned = 0): each spells a seeded text over a, b, c, blank-separated"""
+    rng = random.Random(seed * 31 + 5)
+    mats, chars, coords, texts = {}, {}, {}, {}
+    nb = len(COMPOSITE_LETTERS)
+    for t in tags:
+        while True:
+            n = rng.randint(1, 5)
+            txt = "".join(rng.choice("abc") if (k % 3 != 2 or k == n - 1) else rng.choice("abc ") for k in range(n))
+            if txt not in texts.values() and "  " not in txt and txt == txt.strip():
+                break
+        rows = [[0] * nb + [-1]]
+        for ch in txt:
+            r = [0] * (nb + 1)
+            r[COMPOSITE_LETTERS.index(ch)] = -rng.randint(1, 4)
+            if rng.random() < 0.5:
+                r[rng.randrange(nb + 1)] = r[rng.randrange(nb + 1)] or -rng.randint(24, 40)
+            rows.append(r)
+            rows.append([0] * nb + [-rng.randint(1, 3)])
+        mats[t], texts[t] = rows, txt
+        chars[t] = COMPOSITE_LETTERS + ["~%d" % t]
+        coords[t] = [0, len(rows)]
+    return {"mats": mats, "chars": chars, "coords": coords, "dtypes": {t: "float64" if t % 2 else "float32" for t in tags},
+            "texts": texts}
+
+
+def _digest(obj):
+    import hashlib
+    import json
+    return int(hashlib.sha1(json.dumps(obj, sort_keys=True).encode("utf-8")).hexdigest()[:7], 16)
+
+
+def run_composite(case):
+    """case = {"ids": [line ids], "k": "file"|"bytes", "ver": 1|2, "via": "string"|"ctor", "universe": composite universe}.
+    Original layout O (geometry, transcriptions, logits) -> PAGE XML + saved logits -> rebuilt layout R; both are re-decoded by
+    the real PageDecoder(GreedyDecoder) and exported to ALTO; the outputs are recorded as Observe events."""
+    import lxml.etree as ET
+    from pero_ocr.core.layout import PAGEVersion
+    from pero_ocr.decoding.decoders import GreedyDecoder, BLANK_SYMBOL
+    from pero_ocr.document_ocr.page_parser import PageDecoder
+    u = case["universe"]
+    u = {k: ({int(t): v for t, v in d.items()} if isinstance(d, dict) else d) for k, d in u.items()}
+    ids = case["ids"]
+    A = [{"id": i, "lg": BASE[i], "ch": BASE[i], "co": BASE[i]} for i in ids]
+    tr = {"A": A, "B": [{"id": i, "lg": NONE, "ch": NONE, "co": NONE} for i in ids], "events": [], "outcome": "ok"}
+    path = os.path.join(_WORKDIR["path"], "cmp_%d" % os.getpid())
+    try:
+        orig = build_layout(A, u, "O")
+        y = 20
+        for l in orig.lines_iterator():
+            t = BASE[l.id]
+            l.baseline = np.array([[10.0, y], [60.0 + 10 * t, y + 1.0]])
+            l.polygon = np.array([[10.0, y - 12], [60.0 + 10 * t, y - 11], [60.0 + 10 * t, y + 5], [10.0, y + 4]])
+            l.heights = [12.0, 4.0]
+            l.transcription = u["texts"][t]
+            y += 25
+        orig.page_size = (200, 150)
+        for r in orig.regions:
+            r.polygon = np.array([[5, 5], [140, 5], [140, 190], [5, 190]])
+        if proj_layout(orig, u) != A:
+            tr["outcome"] = "harness:build-mismatch"
+            return tr
+        ver = PAGEVersion.PAGE_2019_07_15 if case["ver"] == 1 else PAGEVersion.PAGE_2013_07_15
+        xml = orig.to_pagexml_string(version=ver)
+        np.random.seed(7)
+        if case["via"] == "ctor":
+            with open(path + ".xml", "w", encoding="utf-8") as fh:
+                fh.write(xml)
+            reb = PageLayout(file=path + ".xml")
+        else:
+            reb = PageLayout()
+            reb.from_pagexml_string(xml)
+        lay = {"A": orig, "B": reb}
+        if proj_layout(reb, u) != tr["B"]:
+            tr["outcome"] = "harness:page-xml-rebuild-mismatch"
+            return tr
+
+        def event(op, L, k, i=0, tok=0, status="ok", store=None):
+            present, legacy, ents = proj_store(store, u)
+            tr["events"].append({"op": op, "L": L, "k": k, "ok": False, "i": i, "fl": 0, "status": status, "present": present,
+                                 "legacy": legacy, "ents": ents, "obs": [], "lse": 0, "shift": 0, "tok": tok,
+                                 "A": proj_layout(lay["A"], u), "B": proj_layout(lay["B"], u)})
+
+        if case["k"] == "file":
+            orig.save_logits(path + ".pkl")
+            with open(path + ".pkl", "rb") as fh:
+                blob = fh.read()
+            event("Save", "A", "file", store=blob)
+            reb.load_logits(path + ".pkl")
+        else:
+            blob = orig.save_logits_bytes()
+            event("Save", "A", "bytes", store=blob)
+            reb.load_logits(blob)
+        event("Load", "B", case["k"], store=blob)
+        decoder = PageDecoder(GreedyDecoder(COMPOSITE_LETTERS + [BLANK_SYMBOL]))
+        for name in ("A", "B"):
+            decoder.process_page(lay[name])
+            for i, l in enumerate(lay[name].lines_iterator()):
+                event("Observe", name, "decode", i=i + 1, tok=_digest(["decode", l.transcription]))
+        for name in ("A", "B"):
+            root = ET.fromstring(lay[name].to_altoxml_string().encode("utf-8"))
+            words = [[s.get("CONTENT") for s in tl.iter("{*}String")] for tl in root.iter("{*}TextLine")]
+            event("Observe", name, "alto", tok=_digest(["alto", words]))
+            tr.setdefault("alto", {})[name] = words
+    except Exception as ex:
+        tr["outcome"] = "exception:" + type(ex).__name__
+        tr["error"] = str(ex)[:300]
+    finally:
+        for ext in (".xml", ".pkl"):
+            if os.path.exists(path + ext):
+                os.remove(path + ext)
+    return tr
